@@ -73,6 +73,7 @@ def check_node(ctx, case, nprobes=45):
     from frappy.datatypes import get_datatype
     from frappy.errors import BadValueError
     classes = [classgen.build_class(cs, f'G{i}') for i, cs in enumerate(case['classes'])]
+    eff = [classgen.effective_spec(cs) for cs in case['classes']]   # what the configured instances should show
     cfg = {}
     for i, (c, cs) in enumerate(zip(classes, case['classes'])):
         cfg[f'm{i}'] = dict({'cls': c, 'description': f'module {i}'}, **classgen.cfg_overrides(cs))
@@ -111,7 +112,7 @@ def check_node(ctx, case, nprobes=45):
     else:
         ctx.ok('describe-modules')
     conn = FakeConn('c')
-    for i, cs in enumerate(case['classes']):
+    for i, cs in enumerate(eff):
         mname = f'm{i}'
         rec = classes[i].rec
         if mname not in d['modules']:
@@ -159,6 +160,21 @@ def check_node(ctx, case, nprobes=45):
     ctx.ev()
     if r[0] != 'active':
         ctx.finding('activate:refused', case, repr(r)[:300])
+    # the snapshot: nothing of a generated node fails to read, a constant shows as the described constant
+    with_start_value = {f'm{i}:{classgen.wire_name(p["name"], p.get("export", True))}' for i, cs in enumerate(eff) for p in cs['params']}
+    for msg in list(conn2.log):
+        if msg[0] == 'error_update' and msg[1] in with_start_value:   # (value/status of the base classes wait for their first poll)
+            m, _, a = msg[1].partition(':')
+            isconst = 'constant' in d['modules'].get(m, {}).get('accessibles', {}).get(a, {})
+            ctx.finding(f'activate:snapshot-error:{"constant" if isconst else "parameter"}:{msg[2][0]}', case, repr(msg)[:300])
+        elif msg[0] == 'update':
+            m, _, a = msg[1].partition(':')
+            desc = d['modules'].get(m, {}).get('accessibles', {}).get(a, {})
+            if 'constant' in desc:
+                if json.loads(json.dumps(msg[2][0])) != desc['constant']:
+                    ctx.finding('activate:constant-differs-from-description', case, f'{msg!r} vs {desc["constant"]!r}')
+                else:
+                    ctx.ok('constant-update-as-described')
     for i, cs in enumerate(case['classes']):
         mobj = kit.modules[f'm{i}']
         for p in cs['params']:
